@@ -3,6 +3,7 @@
 //! 1 violation (VIOLATION line printed), 2 machinery error (never a verdict).
 mod engine;
 mod c01;
+mod c02;
 mod c04;
 mod c10;
 mod c12;
@@ -55,6 +56,8 @@ fn main() {
     ("C01", Some(d)) => c01::replay("C01", &d),
     ("C03", None) => c01::run("C03", &tier),
     ("C03", Some(d)) => c01::replay("C03", &d),
+    ("C02", None) => c02::run(&tier),
+    ("C02", Some(d)) => c02::replay(&d),
     ("C04", None) => c04::run(&tier),
     ("C04", Some(d)) => c04::replay(&d),
     ("C10", None) => c10::run(&tier),
